@@ -493,6 +493,25 @@ func nonNegLen(v ssa.Value, d int) bool {
 			}
 		}
 		return len(x.Edges) > 0
+	case *ssa.Parameter:
+		// a private helper's parameter: non-negative if the argument is at every call site
+		f := x.Parent()
+		calls := privateCallers(f)
+		if len(calls) == 0 {
+			return false
+		}
+		idx := -1
+		for i, p := range f.Params {
+			if p == x {
+				idx = i
+			}
+		}
+		for _, c := range calls {
+			if idx < 0 || idx >= len(c.Call.Args) || !nonNegLen(c.Call.Args[idx], d+1) {
+				return false
+			}
+		}
+		return true
 	}
 	return false
 }
